@@ -16,7 +16,7 @@ ID = "C13"
 LEVEL = "fault_enumeration"
 BATCH = 10
 PROBES_EXPECTED = ['probe:save-symlink', 'probe:older-backup-present', 'probe:save-via-lib', 'probe:save-via-server', 'probe:save-via-menuconfig', 'probe:regen-unchanged', 'probe:regen-rewritten', 'probe:save-unchanged', 'crash@replace', 'crash@write', 'crash@write/torn', 'crash@truncate', 'crash@create']
-TIERS = {"quick": {"runs": 2200, "wall": 55}, "thorough": {"runs": 60000, "wall": 840}}
+TIERS = {"quick": {"runs": 4000, "wall": 55}, "thorough": {"runs": 60000, "wall": 840}}
 RULE = ("each run draws a program, knobs (parser, chunk size, set-order salt, symlink/regular destination, older .old present, "
         "deprecated block) and either (a) a save-with-backup scenario whose every mutating FS operation is a crash point "
         "(each write additionally torn at seeded prefixes incl. 0 bytes) or (b) a history of <=4 generations through the library "
